@@ -112,6 +112,71 @@ pub unsafe extern "C" fn clock_gettime(clk: libc::clockid_t, ts: *mut libc::time
 }
 
 // ---------------------------------------------------------------------------------------
+// blocking sleeps
+//
+// A sleeping system call on the runtime's thread (std::thread::sleep) stops every task of that worker for its length.
+// On the simulation thread it is not executed: its length is accounted (the harness reports it and the oracles judge
+// it) and the call returns at once, so that runs stay fast and repeatable. Other threads (watchdog) really sleep.
+
+static BLOCKED_NS: AtomicU64 = AtomicU64::new(0);
+static BLOCKED_MAX_NS: AtomicU64 = AtomicU64::new(0);
+static BLOCKED_CALLS: AtomicU64 = AtomicU64::new(0);
+
+/// (calls, total microseconds, longest single call in microseconds) of blocking sleeps on the simulation thread
+pub fn blocked_sleeps() -> (u64, u64, u64) {
+    (BLOCKED_CALLS.load(Ordering::Relaxed), BLOCKED_NS.load(Ordering::Relaxed) / 1000, BLOCKED_MAX_NS.load(Ordering::Relaxed) / 1000)
+}
+
+fn on_sim_thread() -> bool {
+    STARTED.load(Ordering::Relaxed) && SIM_THREAD.try_with(|c| c.get()).unwrap_or(false)
+}
+
+fn account_block(ns: u64) {
+    BLOCKED_CALLS.fetch_add(1, Ordering::Relaxed);
+    BLOCKED_NS.fetch_add(ns, Ordering::Relaxed);
+    BLOCKED_MAX_NS.fetch_max(ns, Ordering::Relaxed);
+}
+
+unsafe fn ts_ns(ts: *const libc::timespec) -> i128 {
+    if ts.is_null() {
+        0
+    } else {
+        (*ts).tv_sec as i128 * 1_000_000_000 + (*ts).tv_nsec as i128
+    }
+}
+
+#[no_mangle]
+pub unsafe extern "C" fn nanosleep(req: *const libc::timespec, rem: *mut libc::timespec) -> libc::c_int {
+    if on_sim_thread() {
+        account_block(ts_ns(req).max(0) as u64);
+        return 0;
+    }
+    let r = raw_syscall6(libc::SYS_nanosleep, req as i64, rem as i64, 0, 0, 0, 0);
+    if r < 0 {
+        *libc::__errno_location() = (-r) as i32;
+        return -1;
+    }
+    0
+}
+
+#[no_mangle]
+pub unsafe extern "C" fn clock_nanosleep(clk: libc::clockid_t, flags: libc::c_int, req: *const libc::timespec, rem: *mut libc::timespec) -> libc::c_int {
+    if on_sim_thread() {
+        let mut d = ts_ns(req);
+        if flags & libc::TIMER_ABSTIME != 0 {
+            let mut now: libc::timespec = std::mem::zeroed();
+            clock_gettime(clk, &mut now);
+            d -= ts_ns(&now);
+        }
+        account_block(d.max(0) as u64);
+        return 0;
+    }
+    // (returns the error number, does not set errno)
+    let r = raw_syscall6(libc::SYS_clock_nanosleep, clk as i64, flags as i64, req as i64, rem as i64, 0, 0);
+    (-r) as libc::c_int
+}
+
+// ---------------------------------------------------------------------------------------
 // entropy
 
 static ENTROPY: std::sync::Mutex<Option<super::Rng>> = std::sync::Mutex::new(None);
